@@ -103,6 +103,64 @@ def run_case(res, q, A, B=None, a_names=None, b_names=None, diagnose=None, check
     return exp, got, why
 
 
+def js_got(out):
+    """node driver result -> the dict shape of drive.run_py"""
+    if 'error' in out:
+        return {'records': None, 'partial': out.get('partial'), 'header': None, 'warnings': [], 'error': drive.classify_js(out['error'])}
+    return {'records': out['records'], 'header': out.get('header') or None, 'warnings': out.get('warnings', []), 'error': None, 'alias': out.get('alias')}
+
+
+def run_js_cases(res, cases, diagnose=None, check_header=True, tag='js'):
+    """cases: list of (q, A, B, a_names, b_names). Runs the language-neutral ones through rbql-js (one node process) and judges them with RefQL.
+    Returns the number of cases actually run."""
+    from vf import js
+    if not js.available():
+        res.feat('js_skipped')
+        return 0
+    batch, metas = [], []
+    for q, A, B, a_names, b_names in cases:
+        exp = refql.evaluate_neutral(q, A, B, a_names, b_names)
+        if exp is None:
+            res.feat('js_not_neutral_skipped')
+            continue
+        text = refql.render(q, 'js')
+        c = {'op': 'query', 'query': text, 'input': A}
+        if B is not None:
+            c['join'] = B
+        if a_names is not None:
+            c['input_names'] = a_names
+        if b_names is not None:
+            c['join_names'] = b_names
+        batch.append(c)
+        metas.append((q, A, B, a_names, b_names, exp, text))
+    outs = js.run_batch(batch)
+    for (q, A, B, a_names, b_names, exp, text), out in zip(metas, outs):
+        got = js_got(out)
+        res.evaluations += 1
+        res.traces += 1
+        res.feat('js_cases')
+        why = compare(exp, got, check_header)
+        if why is None and out.get('input_after') != core_jsonable(A):
+            why = 'caller\'s input array modified'
+        if why is None and B is not None and out.get('join_after') != core_jsonable(B):
+            why = 'caller\'s join array modified'
+        if why is None and out.get('alias'):
+            why = 'output row aliases a source row'
+        if why is not None:
+            sig = tag + ':' + (diagnose(q, A, B, exp, got, why) if diagnose else 'mismatch')
+            res.violation(sig, {'lang': 'js', 'query': text, 'q': q, 'A': A, 'B': B, 'a_names': a_names, 'b_names': b_names},
+                          {'records': exp.records, 'error': exp.error, 'header': exp.header},
+                          {'records': got['records'], 'error': got['error'], 'header': got['header'], 'input_after': out.get('input_after')}, why)
+        elif exp.error is None and exp.records:
+            res.feat('js_nonempty_agree')
+    return len(batch)
+
+
+def core_jsonable(x):
+    from vf.core import jsonable
+    return jsonable(x)
+
+
 def multi_match(q, A, B):
     """some A record has >= 2 key-equal B records"""
     if q.get('join') is None or not B:
